@@ -254,6 +254,11 @@ func (ex *Expect) evalProc(ni int) {
 				vals = up.Vals
 				ordered = ordered && up.Ordered
 			}
+			if len(p.Vals) > 0 {
+				// also fed by FromStr: the two feeders interleave in an order that is not determined
+				vals = append(append([]string(nil), vals...), p.Vals...)
+				ordered = false
+			}
 		} else {
 			vals = p.Vals
 		}
